@@ -15,6 +15,7 @@ comparison `a <= b` sees after integer promotion (`char` is signed 8-bit,
 
 Core Lean only (the driver links this file).
 -/
+import LA.Gen.MatchFlags
 set_option linter.unusedVariables false
 namespace LA.Pm
 
@@ -75,7 +76,9 @@ structure Flags where
   noEnd : Bool
   deriving DecidableEq, Repr
 
-def Flags.ofNat (n : Nat) : Flags := { noStart := n % 2 = 1, noEnd := n / 2 % 2 = 1 }
+/-- The `int flags` argument: bit values regenerated from archive_pathmatch.h. -/
+def Flags.ofNat (n : Nat) : Flags :=
+  { noStart := (n &&& LA.Gen.MatchFlags.noAnchorStart) != 0, noEnd := (n &&& LA.Gen.MatchFlags.noAnchorEnd) != 0 }
 
 inductive Res | no | yes | oob
   deriving DecidableEq, Repr
